@@ -1128,7 +1128,16 @@ func buildServeModel(p *Program, fd *ast.FuncDecl) *ServeModel {
 	// 5. if hasPath { r = r.WithContext(context.WithValue(r.Context(), pathKey{}, path)); for i := len(rt.Middlewares)-1; i >= 0; i-- { h = rt.Middlewares[i](h) } }
 	if ifs, ok := list[4].(*ast.IfStmt); ok && ifs.Else == nil && ifs.Init == nil && c.isObj(ifs.Cond, hasPath) && len(ifs.Body.List) >= 2 {
 		if as, ok := ifs.Body.List[0].(*ast.AssignStmt); ok && as.Tok == token.ASSIGN && len(as.Lhs) == 1 && c.isObj(as.Lhs[0], req) {
-			if wc, ok := as.Rhs[0].(*ast.CallExpr); ok && len(wc.Args) == 1 {
+			wcE := as.Rhs[0]
+			if hc, isCall := ast.Unparen(wcE).(*ast.CallExpr); isCall {
+				if _, isSel := hc.Fun.(*ast.SelectorExpr); !isSel {
+					// the store behind a one-expression helper: r = withSchemaPath(r, path)
+					if e, ok2 := p.inliner().expandExprCall(hc); ok2 {
+						wcE = e
+					}
+				}
+			}
+			if wc, ok := ast.Unparen(wcE).(*ast.CallExpr); ok && len(wc.Args) == 1 {
 				if sel, ok := wc.Fun.(*ast.SelectorExpr); ok && sel.Sel.Name == "WithContext" && c.isObj(sel.X, req) {
 					if wv, ok := c.stdCall(wc.Args[0], "context.WithValue"); ok && len(wv.Args) == 3 {
 						keyT := info.TypeOf(wv.Args[1])
